@@ -659,6 +659,9 @@ def oracle(s, recs, rows):
                 key = gkey(d, s["gs"])
                 hist.setdefault(key, []).append(r)
                 e = [(kk, ("text", vv)) for kk, vv in r]
+                if JOINED_KEYS[0]:          # "explained by the joined key alone?": the code writes the group's FIRST member's group-by texts into the record
+                    first = dict(hist[key][0])
+                    e = [(kk, ("text", first[kk]) if kk in s["gs"] else ev) for kk, ev in e]
                 # field order: fields ever seen in this group (not only in the window) keep their slot
                 allf = stats_fields(hist[key])
                 win = dict(stats_fields(hist[key][-s["w"]:]))
